@@ -107,6 +107,11 @@ def check_C15(tier, seed):
                 nc, nt = count_handles(x)
                 picked.append(list(x) + crate_probes(max(nc, 1), nt))
             ws.append(Workload(s, picked, libcheck.NAMES4 + ["d"], origin=st["instance"] + " + probes"))
+            # two database objects on one directory, handles of both mixed as arguments (MultiConn), in the sanitizer build
+            if s in ("1.6.0", "1.18.0o", "2.18.0", "2.21.2") or tier != "quick":
+                n2 = 6 if tier == "quick" else 40
+                ws.append(Workload(s, libcheck.with_via([x for x in picked[:n2]], r), libcheck.NAMES4 + ["d"], mode="disk", tag="m",
+                                   flags={"conn2": True}, origin=st["instance"] + " + probes, two connections"))
         return ws
 
     def build_track(wd, mc_stats):
